@@ -51,6 +51,10 @@ type C20Case struct {
 	// its own ("Connection: close"), by Conns workers at a time: the limit is the listener's, however the bytes are
 	// spread over connections
 	ShortKiB int `json:"short_kib,omitempty"`
+	// OriginDone (tunnel-upload): the origin shuts down its sending side as soon as it has the request head (it has
+	// nothing to say before the upload is over): the tunnel's other direction is finished, the upload is not - and stays
+	// limited
+	OriginDone bool `json:"origin_done,omitempty"`
 }
 
 func genC20(t *rapid.T) C20Case {
@@ -83,7 +87,10 @@ func genC20(t *rapid.T) C20Case {
 		} else {
 			c.WriteLimit, c.ReadLimit = rate, other
 		}
-		if c.TimeoutMs == 0 && c.WindowMs == 0 && rapid.IntRange(0, 4).Draw(t, "short") == 0 {
+		if c.TimeoutMs == 0 && c.WindowMs == 0 && c.Dir == "tunnel-upload" && rapid.Bool().Draw(t, "origindone") {
+			c.OriginDone = true
+		}
+		if c.TimeoutMs == 0 && c.WindowMs == 0 && !c.OriginDone && rapid.IntRange(0, 4).Draw(t, "short") == 0 {
 			c.ShortKiB = rapid.SampledFrom([]int{8, 32, 60}).Draw(t, "shortkib")
 			c.Dir, c.Conns = "download", rapid.SampledFrom([]int{2, 8}).Draw(t, "workers")
 			c.ReadLimit, c.WriteLimit = rate, other
@@ -162,6 +169,9 @@ func (o *c20Origin) handle(pc *PeerConn) {
 		switch parts[0] {
 		case "POST":
 			cl, _ := strconv.Atoi(m.First("Content-Length"))
+			if m.First("X-Origin-Done") != "" {
+				pc.Raw.CloseWrite()
+			}
 			buf := make([]byte, 64<<10)
 			exp := make([]byte, 64<<10)
 			got, bad := 0, -1
@@ -379,7 +389,11 @@ func runC20once(c C20Case) (fails []vstat.Failure) {
 				return
 			}
 			// upload
-			fmt.Fprintf(conn, "POST %s/ul HTTP/1.1\r\nHost: %s\r\nX-Vid: %s\r\nX-Pid: %d\r\nContent-Length: %d\r\n\r\n", abs, host, vid, pid, per)
+			od := ""
+			if c.OriginDone && tunnel {
+				od = "X-Origin-Done: 1\r\n"
+			}
+			fmt.Fprintf(conn, "POST %s/ul HTTP/1.1\r\nHost: %s\r\nX-Vid: %s\r\nX-Pid: %d\r\n%sContent-Length: %d\r\n\r\n", abs, host, vid, pid, od, per)
 			buf := make([]byte, 64<<10)
 			if windowed {
 				tc.SetDeadline(t0.Add(time.Duration(c.WindowMs) * time.Millisecond))
@@ -402,6 +416,30 @@ func runC20once(c C20Case) (fails []vstat.Failure) {
 					return
 				}
 				off += k
+			}
+			if c.OriginDone && tunnel {
+				// no reply will come (the origin has closed that direction): the upload is over when the origin has
+				// counted every byte
+				for t1 := time.Now(); time.Since(t1) < 30*time.Second; time.Sleep(5 * time.Millisecond) {
+					o.mu.Lock()
+					_, done := o.bad[vid]
+					o.mu.Unlock()
+					if done {
+						break
+					}
+				}
+				r.n = per
+				o.mu.Lock()
+				r.samples = append([]c20Sample(nil), o.up[vid]...)
+				if b, ok := o.bad[vid]; ok {
+					r.bad = b
+				} else {
+					r.err = fmt.Errorf("upload through a tunnel whose other direction the origin had closed did not complete in 30 s")
+				}
+				delete(o.up, vid)
+				delete(o.bad, vid)
+				o.mu.Unlock()
+				return
 			}
 			m, err := ReadResponse(br, "POST")
 			if err != nil && timedOut(err) {
@@ -634,6 +672,9 @@ func classifyC20(c C20Case) (bool, string, []string) {
 	}
 	if c.ShortKiB > 0 {
 		cls = append(cls, "many-short-connections")
+	}
+	if c.OriginDone {
+		cls = append(cls, "other-direction-finished-first")
 	}
 	if c.WindowMs > 0 {
 		cls = append(cls, "limit-below-one-io-call")
